@@ -450,16 +450,17 @@ func (v *Value) Iterate(fn func(idx, count int, key, value *Value) bool, empty f
 	v.IterateOrder(fn, empty, false, false)
 }
 
-// IterateOrder behaves like Value.Iterate, but can iterate through an array/slice/string in reverse. Does
-// not affect the iteration through a map because maps don't have any particular order.
-// However, you can force an order using the `sorted` keyword (and even use `reversed sorted`).
+// IterateOrder behaves like Value.Iterate, but can iterate in reverse and/or in sorted order
+// (the `reversed` and `sorted` keywords of the for-tag). The keys of a map are always
+// visited in sorted order, so for a map `reversed` alone is the same as `reversed sorted`.
 func (v *Value) IterateOrder(fn func(idx, count int, key, value *Value) bool, empty func(), reverse bool, sorted bool) {
 	switch v.getResolvedValue().Kind() {
 	case reflect.Map:
 		// Go's maps have no order of their own: the keys are always visited in sorted
 		// order (like text/template does), so that equal data renders equally
 		keys := sortedKeys(v.getResolvedValue().MapKeys())
-		if sorted && reverse {
+		if reverse {
+			// (also without "sorted": the keys have an order, so it can be reversed)
 			sort.Sort(sort.Reverse(keys))
 		} else {
 			sort.Sort(keys)
